@@ -1,5 +1,5 @@
 SPECIFICATION Spec
-CONSTANTS Mode = "energy"  Variant = "ok"  Family = "sweep"  List = { }  Steps = 2
+CONSTANTS Mode = "energy"  Variant = "ok"  Family = "sweep"  List = { }  Steps = 2  PairMod = 1
           Extra = { 1000 }
 INVARIANT TypeOK
 INVARIANT WallsHold
